@@ -6,5 +6,5 @@ AllFeatures == SUBSET {"colruns", "rowruns", "selems", "spans", "paras"}
 SomeFeatures == {{}, {"colruns"}, {"rowruns"}, {"selems"}, {"spans"}, {"paras"}, {"colruns", "rowruns", "selems", "spans", "paras"}}
 NoRowRuns == {f \in AllFeatures : "rowruns" \notin f}
 OneSheet == {<<1, 1>>}
-AllSheets == {<<n, k>> : n \in 1..3, k \in 1..4}
+AllSheets == {<<n, k>> : n \in 0..3, k \in 1..4}          \* (a document may hold no sheet at all)
 =============================================================================
